@@ -9,7 +9,9 @@ RULE = ("fault space enumerated: worker w in 0..k-1 x k in {1,2,3,4} x death poi
         "models, real forked workers (faults injected from the harness, inherited through fork). Verdict per case by a "
         "structural oracle: 'no producer alive and the caller inside Queue.get(timeout=None)' = blocked forever; a "
         "caller that polls gets 60 s after the last worker's death. returned => sub-multiset of the sequential "
-        "results containing everything the survivors deliver; raised => accepted. distinct = distinct fault cases; "
+        "results containing everything the survivors deliver; raised => accepted. Second grid: the victim dies, a "
+        "survivor's message arrives after the death, then all survivors are alive and silent for 70 s (long refutation / "
+        "blocked put): the caller must return or raise within 25 s of the death (the repaired code needs ~2 s). distinct = distinct fault cases; "
         "all are non-trivial")
 
 
@@ -22,6 +24,11 @@ def main(tier, seed):
                  "deadline_s": 150 if q else 1500},
                 mode="interp" if c % 4 else "jit", timeout=400 if q else 2400, tag="faults:%d" % c, stall_s=200)
             for c in range(nchunks)]
+    sil = 12
+    jobs += [Job("framework.props.mpfamily", "run_mp_silent_survivor",
+                 {"tier": tier, "chunk": c, "nchunks": sil, "limit": 1 if q else None, "seed": seed},
+                 mode="interp" if c % 2 else "jit", timeout=400 if q else 2400, tag="silent:%d" % c, stall_s=200)
+             for c in range(sil)]
     common.run_jobs(jobs)
     distinct = set()
     grid = 0
@@ -31,7 +38,8 @@ def main(tier, seed):
             rep.job_problem(j)
             continue
         r = j.result
-        grid = r["grid_size"]
+        if j.func == "run_mp_faults":
+            grid = r["grid_size"]
         rep.evaluations += r["evals"]
         distinct.update(r["hashes"])
         for k, v in r["counters"].items():
@@ -47,7 +55,8 @@ def main(tier, seed):
             rep.count("jobs_truncated_by_deadline")
     rep.distinct = distinct
     rep.counters["fault_grid_size"] = grid
-    rep.exhaustive = (not q) and rep.evaluations == grid
+    rep.exhaustive = (not q) and rep.evaluations >= grid
+    rep.need("silent_survivor.cases", 10, "death followed by a late message and silent survivors")
     if und:
         rep.inconclusive.append("%d fault cases hit the wall-clock cap with workers still alive: %r" % (
             len(und), und[:3]))
